@@ -24,6 +24,29 @@ func runC08(c *Ctx) {
 	c.rule("C08-R8", "ESC/alias (whole module): no `append` on a slice held in a struct field or package variable keeps its result anywhere but in that same place: what one request, route or compilation appended is never written into spare capacity that the next one overwrites (and two goroutines never write the same spare slot)")
 	c.Sites["C08-R8#appends-on-shared-slices"] = appendAliasAudit(c, "C08-R8", c.modulePkgs(), "")
 	c.floor("C08-R8", 40)
+	// ---- R9 the one counter all requests share is restored whatever happens to a request
+	c.rule("C08-R9", "ORD: the evaluation-depth counter is interpreter-wide (known finding C08-R1), so every request must give back exactly what it took: after the increment in EvaluateExpression every path to a return passes the decrement, and the decrement is registered with defer before any evaluation code runs - a panic in one request (a provider method, a builtin) that is recovered by the dispatcher otherwise leaks a level for good, and after ~500 such requests every route of every client answers 'maximum evaluation depth exceeded'")
+	if ev := c.fn(interpPkg, "Interpreter.EvaluateExpression"); ev != nil {
+		var inc ssa.Instruction
+		eachInstr(ev, func(_ *ssa.BasicBlock, _ int, ins ssa.Instruction) {
+			if isAtomicAddOn(ins, "Interpreter", "evalDepth", +1) && inc == nil {
+				inc = ins
+			}
+		})
+		if inc == nil {
+			c.info("C08-R9", interpPkg+".Interpreter.EvaluateExpression#no-shared-depth-counter", ev.Pos(), "no interpreter-wide depth counter is modified here")
+		} else {
+			isDec := func(x ssa.Instruction) bool { return isAtomicAddOn(x, "Interpreter", "evalDepth", -1) }
+			q := &pathQuery{fn: ev, target: isReturn, stop: isDec}
+			hit, path := q.after(inc)
+			c.ob("C08-R9", interpPkg+".Interpreter.EvaluateExpression#shared-counter-restored-on-every-exit", inc.Pos(), hit == nil, "a return is reachable after the increment of the shared counter without the decrement: one request's failed evaluation takes budget away from all later requests", c.blockPath(path)...)
+			leak, lpath := unwindLeak(ev, inc, isDec)
+			c.ob("C08-R9", interpPkg+".Interpreter.EvaluateExpression#shared-counter-restored-when-a-panic-unwinds", inc.Pos(), leak == nil, "evaluation code runs after the increment of the shared counter with no deferred decrement registered: a panic in one request, recovered by the dispatcher, leaks a level for every later request of every client", c.blockPath(lpath)...)
+		}
+	}
+	// ---- R10 defaults are per request
+	c.rule("C08-R10", "def-use: a value put into a request's input by ApplyTypeDefaults is evaluated for that request (see C07-R11): an array/object default kept from an earlier request is one Go map/slice shared by concurrent requests - in-place edits leak between them, and two requests writing it at once is a fatal 'concurrent map writes'")
+	freshDefaultsRule(c, "C08-R10")
 	// ---- R1 shared write-set
 	c.rule("C08-R1", "WRS: no function of pkg/interpreter reachable from a request root stores to, updates a map of, or atomically modifies a field of the shared Interpreter / TypeChecker / ModuleResolver objects, defines or sets variables in Interpreter.globalEnv, or writes a package-level variable, unless a mutex of the owning object is held at that point")
 	roots := []string{"Interpreter.ExecuteRoute", "Interpreter.ExecuteCommand", "Interpreter.ExecuteEventHandler", "Interpreter.ExecuteQueueWorker"}
